@@ -104,10 +104,20 @@ def main():
             thm_module[t] = mm
     obligations = len(thms)
     discharged = 0
+    # a property theorem that disappears (deleted, renamed, moved out of the obligation files) is a broken obligation:
+    # tools/expected_theorems.json is the committed list (regenerate with tools/mkexpected.py when theorems are added)
+    expected_missing = []
+    try:
+        exp = json.load(open(os.path.join(VERIF, "tools", "expected_theorems.json"))).get(pid, [])
+        expected_missing = [t for t in exp if t not in set(thms)]
+    except Exception as e:
+        expected_missing = [f"(expected_theorems.json unreadable: {e})"]
     axiom_report = {}
     broken_theorems = []
     if gen_err:
         broken_theorems.append(("Gen extraction", gen_err))
+    for t in expected_missing:
+        broken_theorems.append((t, "property theorem listed in tools/expected_theorems.json is no longer among the obligations of this check"))
     if ok_proof:
         axiom_report = {}
         for mm in modules:
@@ -171,8 +181,10 @@ def main():
                 violations.append(dict(kind="impl-fault", stream=stream, variant=variant, detail=what, op=vlib.clip(last), found_input=True))
             continue
         if r.get("model_rc", 0) != 0:
-            print("ERROR: model driver crashed: " + r.get("model_err", ""))
-            sys.exit(2)
+            # the executable model itself failed on this stream: the correspondence is broken
+            violations.append(dict(kind="correspondence", stream=stream, variant=variant, found_input=False,
+                                   detail="model driver crashed: " + (r.get("model_err", "") or "")[-1500:]))
+            continue
         total_cases += r["cases"]
         for k2, v2 in r["meta"].items():
             dist[f"{stream}.{k2}"] = v2
